@@ -28,11 +28,14 @@ ASSUMPTIONS = ['same-build round trips only (the property claims nothing else)',
                'checked to be rejected with XSerializationException',
                'instance validity is known only approximately; the oracle is differential (A vs B vs C), the intent labels only feed the '
                'non-triviality measurement']
-BUDGET = {'quick': 60, 'thorough': 500}
+BUDGET = {'quick': 50, 'thorough': 500}
 WALLCAP = {'quick': 500, 'thorough': 2700}
 
 F_LOCKED = 'C16-locked-pool-stream'
-F_PSVINOT = 'X-psvi-with-pool-xsmodel-crash'     # not a C16 defect: crashes on the ORIGINAL pool (PSVI handler + XSModel created by the pool before the parse + attribute of a user-defined simple type)
+ALL_EXCLUSIONS = {F_LOCKED}
+# remove the id when the defect is fixed in /repo (trial run: VERIF_C16_EXCLUSIONS_OFF=C16-locked-pool-stream)
+ACTIVE_EXCLUSIONS = set(ALL_EXCLUSIONS) - set(x for x in os.environ.get('VERIF_C16_EXCLUSIONS_OFF', '').split(',') if x)
+F_PSVINOT = 'C15-psvi-null-xsmodel'     # not a C16 defect: crashes on the ORIGINAL pool (PSVI handler + XSModel created by the pool before the parse + attribute of a user-defined simple type)
 
 def parse_resp(text):
     r = {'load': [], 'inst': {}, 'model': {}, 'lines': {}}
@@ -157,7 +160,7 @@ def worker(ctx):
     st_ = ctx.stats
     def prop(c):
         grammars, instances, lock, lockser, api = c
-        if lockser:
+        if lockser and F_LOCKED in ACTIVE_EXCLUSIONS:
             st_.excluded_known[F_LOCKED] += 1; lockser = 0
         case = build_case(grammars, instances, lock, lockser, api)
         if api == 'dom':
